@@ -64,6 +64,10 @@ def xml_doc(g):
             ET.SubElement(e, "id").text = "nonsense-id" if df == "badid" else "7.5" if df == "numid" else UUIDS[h]
             ET.SubElement(e, "type").text = "nonsense-type" if df == "baddtype" else "int"
             ET.SubElement(e, "unit").text = "%"
+            if h == "p2":
+                # valid content: a dependency on the sibling Property a (an int) with a text as dependency value
+                ET.SubElement(e, "dependency").text = "a"
+                ET.SubElement(e, "dependencyvalue").text = "as many as possible"
             ET.SubElement(e, "value").text = "abc" if df in ("badvalue", "noname-badvalue") else ("" if df == "emptyvalue" else "[ \n\t ]" if df == "blanklist" else "[ 1 ,   2 ]" if df == "spacedlist" else "[1,2]")
             if df == "repeat-value":
                 ET.SubElement(e, "value").text = "[3]"
@@ -113,6 +117,9 @@ def dict_doc(g):
         e["id"] = "nonsense-id" if df == "badid" else 7.5 if df == "numid" else UUIDS[h]
         e["type"] = "nonsense-type" if df == "baddtype" else "int"
         e["unit"] = "%"
+        if h == "p2":
+            e["dependency"] = "a"
+            e["dependencyvalue"] = "as many as possible"
         e["value"] = ["abc"] if df in ("badvalue", "noname-badvalue") else ([] if df == "emptyvalue" else [" \n\t "] if df == "blanklist" else [1, 2])
         if df in ("unknown-child", "attr", "case-tag", "repeat-value"):
             e["foo"] = "bar"
@@ -214,6 +221,32 @@ def replay(g):
                 w = W.project({"r1": doc}, docof=True)[0] if doc is not None else EMPTYW
                 yield {"fam": "reader", "src": "model", "g": g, "fmt": "XML", "mode": mode, "entry": entry, "outcome": outcome,
                        "warnings": len(rd.warnings), "found": find(doc) if doc is not None else {h: False for h in ORDER}, "w": w}
+        # the same text in other lexical dress (no defect is added by any of them): with an XML declaration, with a processing
+        # instruction / a comment / a reference to an entity declared in the DOCTYPE between the elements; and through the
+        # high-level entry points, which also validate what they have read
+        if wellformed_text:
+            import re as _re
+            def between(ins):
+                return _re.sub(r"(</name>)", r"\1" + ins, xml, count=3).replace("<section>", ins + "<section>", 1)
+            dress = {"decl": '<?xml version="1.0" encoding="UTF-8"?>\n<?xml-stylesheet type="text/xsl" href="odmlDocument.xsl"?>\n' + xml,
+                     "pi": between("<?editor fold?>"), "comment": between("<!-- note -->"),
+                     "entity": '<!DOCTYPE odML [<!ENTITY sep " ">]>\n' + between("&sep;")}
+            for name, text in sorted(dress.items()):
+                for mode in ("strict", "lenient"):
+                    rd = XMLReader(ignore_errors=(mode == "lenient"), show_warnings=False)
+                    outcome, doc = classify(lambda: rd.from_string(text))
+                    w = W.project({"r1": doc}, docof=True)[0] if doc is not None else EMPTYW
+                    yield {"fam": "reader", "src": "model", "g": g, "fmt": "XML", "mode": mode, "entry": "string:" + name, "outcome": outcome,
+                           "warnings": len(rd.warnings), "found": find(doc) if doc is not None else {h: False for h in ORDER}, "w": w}
+            path = os.path.join(d, "in.xml")
+            open(path, "w").write(xml)
+            for name, fn in (("ODMLReader.from_string", lambda: ODMLReader("XML").from_string(xml)), ("ODMLReader.from_file", lambda: ODMLReader("XML").from_file(path)),
+                             ("odml.load", lambda: odml.load(path, "XML"))):
+                with C.quiet():
+                    outcome, doc = classify(fn)
+                w = W.project({"r1": doc}, docof=True)[0] if doc is not None else EMPTYW
+                yield {"fam": "reader", "src": "model", "g": g, "fmt": "XML", "mode": "strict", "entry": name, "outcome": outcome,
+                       "warnings": 0, "found": find(doc) if doc is not None else {h: False for h in ORDER}, "w": w}
         if wellformed_text:
             dd = dict_doc(g)
             for fmt in ("JSON", "YAML"):
@@ -225,5 +258,11 @@ def replay(g):
                     w = W.project({"r1": doc}, docof=True)[0] if doc is not None else EMPTYW
                     yield {"fam": "reader", "src": "model", "g": g, "fmt": fmt, "mode": mode, "entry": "string", "outcome": outcome,
                            "warnings": nw, "found": find(doc) if doc is not None else {h: False for h in ORDER}, "w": w}
+                # the high-level reader (strict; it validates what it has read)
+                with C.quiet():
+                    outcome, doc = classify(lambda: ODMLReader(fmt).from_string(text))
+                w = W.project({"r1": doc}, docof=True)[0] if doc is not None else EMPTYW
+                yield {"fam": "reader", "src": "model", "g": g, "fmt": fmt, "mode": "strict", "entry": "ODMLReader.from_string", "outcome": outcome,
+                       "warnings": 0, "found": find(doc) if doc is not None else {h: False for h in ORDER}, "w": w}
     finally:
         shutil.rmtree(d, ignore_errors=True)
